@@ -3,5 +3,6 @@ CONSTANTS
   Scenarios <- MCScenarios
   RetVals <- MCRetVals
   MaxMoves = 1
+  Cov = FALSE
   Bug = "none"
 INVARIANTS ContractHolds Coherent OutCoherent OneHolder
